@@ -40,6 +40,7 @@ type Contract struct {
 	Closure   *ClosureSel
 	IsIface   bool // contract on an interface method (used at invoke sites)
 	Refines   string // key of the concrete method whose proved contract an interface contract restates
+	Exports   []Clause // named post-state values (Label = name)
 	IsFuncType bool // contract on calls through values of a named func type
 	Params    []string
 	Results   []string
@@ -299,6 +300,18 @@ func ParseContracts(pkgPath, file string, text string) ([]*Contract, []*Def, err
 				return nil, nil, fail(d, err)
 			}
 			cur.Ensures = append(cur.Ensures, cl)
+		case "export":
+			// export <name> = <int expr over params/results>: a value of the post-state
+			// of every call, readable at call sites of the caller as exported(sel, name)
+			j := strings.Index(d.text, "=")
+			if j < 0 {
+				return nil, nil, fail(d, fmt.Errorf("export <name> = <expr>"))
+			}
+			cl, err := mkClause(strings.TrimSpace(d.text[:j]), strings.TrimSpace(d.text[j+1:]), d.line)
+			if err != nil {
+				return nil, nil, fail(d, err)
+			}
+			cur.Exports = append(cur.Exports, cl)
 		case "refines":
 			// on an interface contract: the concrete method whose proved contract
 			// this one restates (clause labels must match, see cmdCheck)
